@@ -18,7 +18,7 @@ PROP = "C03"
 PROPS_FILES = ["Pms/Props/C03.lean"]
 GENERATORS = ["gr"]
 RULE = ("seeded trajectories: K∈1..6 species (ids 1..K, arbitrary composition, shuffled) × d∈{2,3} × cell {orthogonal, "
-        "triclinic (lower-triangular h)} × mask {0,1}^d × frames 1..3 × N≤14 (quick) / ≤30 (thorough) × bin width from a "
+        "triclinic (lower-triangular h)} × mask {0,1}^d × frames 1..3 × N≤14 (every fifth case N≤30) × bin width from a "
         "mixed dyadic/decimal set × configuration {random gas, lattice+offset, clusters} on a 3-decimal grid, plus a dyadic "
         "tie stream (distances exactly on bin edges and on L/2); a case is judged when every rint argument and every "
         "distance is ≥1e-6 from its flip point; non-trivial = some bin of the total is non-zero and, for 2≤K≤5, at least "
@@ -32,6 +32,8 @@ TRUSTED_BASE = [
     "returned edges kδ; np.linalg.norm; np.unique(return_counts) = counts of the sorted distinct ids; np.prod / .min(); "
     "int() = floor on non-negatives; np.rint = IsRintHE; np.linalg.inv (only oddness of remove_pbc is used by the theorems); "
     "pandas column arithmetic = element-wise real arithmetic; np.pi = π",
+    "driver: squared distances and the index of the bin accepted by the model's own `binOf` are tabulated once per pair "
+    "(uniqueness of that bin is C03_bin_unique); π enters as the rational value of the double np.pi",
     "float64 ≈ ℝ: validated by the correspondence under the margin guard (rint arguments and bin edges ≥1e-6 from a flip), not proved",
     "V is np.prod(boxlength) as in the code (= cell volume for LAMMPS-style lower-triangular cells); distances are remove_pbc distances (C02)",
 ]
@@ -523,7 +525,8 @@ def replay(run, rp):
     c = rp.get("case")
     if c is not None:
         if "sample" in c:
-            return bool(sample_check(c))
+            w = sample_check(c)
+            return bool(w) and w[0] != "skip"
         return bool(failing(c))
     return any(failing(c) for c in rp.get("cases", []))
 
@@ -535,14 +538,14 @@ SAMPLES = [("unary.dump", 3), ("dump_2D.atom", 2), ("ternary.dump", 3), ("quarte
 
 def sample_check(c):
     """first frame of a repo sample dump, coarse δ: real code vs a vectorised float evaluation of the statement
-    (same remove_pbc distances; pairs closer than 1e-9 to a bin edge make the file skip)"""
+    (same remove_pbc distances; a pair closer than 1e-11 to a bin edge makes the file skip)"""
     from PyMatterSim.reader.dump_reader import DumpReader
     from PyMatterSim.reader.reader_utils import Snapshots
     from PyMatterSim.static.gr import gr
     from PyMatterSim.utils.pbc import remove_pbc
     path = os.path.join(common.REPO, "tests", "sample_test_data", c["sample"])
     if not os.path.exists(path):
-        return None
+        return ("skip", "file not present")
     rd = DumpReader(path, ndim=c["ndim"])
     rd.read_onefile()
     s0 = rd.snapshots.snapshots[0]
@@ -566,8 +569,8 @@ def sample_check(c):
         dist = np.linalg.norm(rij, axis=1)
         dist[i] = -1.0
         ok = (dist >= 0) & (dist <= edges[-1])
-        if np.any(np.abs(dist[ok][:, None] - edges[None, 1:]) < 1e-9):
-            return None
+        if np.any(np.abs(dist[ok][:, None] - edges[None, 1:]) < 1e-11):
+            return ("skip", "a pair distance is within 1e-11 of a bin edge")
         k = np.minimum((dist[ok] / delta).astype(int), maxbin - 1)
         np.add.at(tot, k, 1)
         if 2 <= K <= 5:
@@ -579,7 +582,7 @@ def sample_check(c):
     names = ["r", "gr"]
     if 2 <= K <= 5:
         if kinds != list(range(1, K + 1)):
-            return None
+            return ("skip", "type ids are not 1..K")
         Na = {a: int(np.sum(types == a)) for a in kinds}
         for a, b in [(a, a) for a in kinds] + [(a, b) for a in kinds for b in kinds if a < b]:
             names.append(f"gr{a}{b}")
@@ -597,12 +600,15 @@ def sample_check(c):
 def sample_dumps(run):
     out = []
     for fn, nd in SAMPLES:
-        c = {"sample": fn, "ndim": nd, "rdelta": 0.35}
+        c = {"sample": fn, "ndim": nd, "rdelta": 0.35172931}
         try:
             w = sample_check(c)
         except Exception as e:
             w = ("raise", f"{fn}: {type(e).__name__}: {e}")
         run.hist("sample_dump", fn)
+        if w and w[0] == "skip":
+            run.coverage.setdefault("sample_dumps_skipped", []).append(f"{fn}: {w[1]}")
+            continue
         run.count(("sample", fn), True)
         if w:
             out.append({"kind": "oracle", "name": f"sample dump {fn}", "detail": w[1], "cases": [],
